@@ -259,3 +259,65 @@ Lemma window_consumers q w s k : 0 < s -> forall ts, increasing 0 ts ->
   glog (final (prog_window q w s k) ts) = window_log q w s k 0 ts.
 Proof. intros Hs ts Hinc. exact (window_program_log q w s Hs k ts Hinc). Qed.
 
+
+(* ---------- closed form: consumers always see the window of the last emitting interval ---------- *)
+(* the last emitting interval up to n: the largest multiple of s that is <= n *)
+Definition last_emission (s : Z) (n : nat) : nat := Z.to_nat (Z.of_nat n - Z.of_nat n mod s).
+
+Lemma last_emission_S_emit s n : 0 < s -> Z.of_nat (S n) mod s = 0 -> last_emission s (S n) = S n.
+Proof. intros Hs H. unfold last_emission. rewrite H. lia. Qed.
+
+Lemma mod_succ_nonzero s m : 0 < s -> 0 <= m -> (m + 1) mod s <> 0 -> (m + 1) mod s = m mod s + 1.
+Proof.
+  intros Hs Hm H.
+  pose proof (Z.mod_pos_bound m s Hs) as B.
+  destruct (Z.eq_dec (m mod s + 1) s) as [E|E].
+  - exfalso. apply H. rewrite <- Z.add_mod_idemp_l by lia. rewrite E. apply Z_mod_same_full.
+  - rewrite <- Z.add_mod_idemp_l by lia. apply Z.mod_small. lia.
+Qed.
+
+Lemma last_emission_S_keep s n : 0 < s -> Z.of_nat (S n) mod s <> 0 -> last_emission s (S n) = last_emission s n.
+Proof.
+  intros Hs H. unfold last_emission. rewrite Nat2Z.inj_succ, <- Z.add_1_r in *.
+  rewrite (mod_succ_nonzero s (Z.of_nat n)) by lia. f_equal. lia.
+Qed.
+
+Lemma last_emission_zero_iff s n : 0 < s -> (last_emission s n = 0%nat <-> Z.of_nat n < s).
+Proof.
+  intros Hs. unfold last_emission.
+  pose proof (Z.mod_pos_bound (Z.of_nat n) s Hs) as B.
+  pose proof (Z.mod_le (Z.of_nat n) s ltac:(lia) Hs) as L.
+  split.
+  - intros H. destruct (Z.lt_ge_cases (Z.of_nat n) s) as [|Hge]; auto. exfalso.
+    assert (E : Z.of_nat n - Z.of_nat n mod s = 0) by lia.
+    assert (E2 : Z.of_nat n mod s = Z.of_nat n) by lia. lia.
+  - intros H. rewrite Z.mod_small by lia. lia.
+Qed.
+
+(* closed form of the windowed stream's RDD: the window of the last emitting interval *)
+Lemma win_rdd_spec_closed q w s n : 0 < s ->
+  win_rdd_spec q w s n =
+  if Z.of_nat n <? s then RNone else union_data (win_buf q w (last_emission s n)).
+Proof.
+  intros Hs. induction n as [|n IH].
+  - cbn [win_rdd_spec]. destruct (Z.of_nat 0 <? s) eqn:E; [reflexivity|]. apply Z.ltb_ge in E. cbn in E. lia.
+  - cbn [win_rdd_spec]. destruct (Z.of_nat (S n) mod s =? 0) eqn:E.
+    + apply Z.eqb_eq in E. rewrite last_emission_S_emit by assumption.
+      destruct (Z.of_nat (S n) <? s) eqn:E2; [|reflexivity].
+      apply Z.ltb_lt in E2. rewrite Z.mod_small in E by lia. lia.
+    + apply Z.eqb_neq in E. rewrite IH, last_emission_S_keep by assumption.
+      destruct (Z.of_nat n <? s) eqn:E1; destruct (Z.of_nat (S n) <? s) eqn:E2; try reflexivity.
+      * apply Z.ltb_lt in E1. apply Z.ltb_ge in E2. exfalso. apply E.
+        assert (Z.of_nat (S n) = s) by lia. rewrite H. apply Z_mod_same_full.
+      * apply Z.ltb_ge in E1. apply Z.ltb_lt in E2. lia.
+Qed.
+
+Lemma last_emission_spec s n : 0 < s ->
+  (last_emission s n <= n)%nat /\ Z.of_nat (last_emission s n) mod s = 0 /\ Z.of_nat n - Z.of_nat (last_emission s n) < s.
+Proof.
+  intros Hs. unfold last_emission.
+  pose proof (Z.mod_pos_bound (Z.of_nat n) s Hs) as B.
+  pose proof (Z.mod_le (Z.of_nat n) s ltac:(lia) Hs) as L.
+  rewrite Z2Nat.id by lia. repeat split; try lia.
+  rewrite Zminus_mod_idemp_r, Z.sub_diag. apply Zmod_0_l.
+Qed.
